@@ -852,6 +852,13 @@ regp_recv(RegP *p, RPMaybeFrame *mf)
     switch (cs.error.id) {
     case 0:
         /* No error indicated. Good! */
+        if (cs.buffer.data == NULL) {
+            /* ...unless not a single octet was received (an empty frame):
+             * then nothing was allocated and there is nothing to parse. A
+             * frame shorter than a header is a header encoding error. */
+            mf->error.id = EBADMSG;
+            return regp_resp_meta(p, RP_META_EHEADERENC);
+        }
         break;
     case EBUSY:
         /* Send EBUSY reply, based on fallback buffer */
